@@ -82,6 +82,8 @@ def gen_perm_twice(r, n):
     # the executable is busy (held open by a writer) when the call starts, and is given away while the call is under way
     for _ in range(max(2, n // 60)):
         ops.append(f"ex.busy how={r.pick(['chown', 'chmod'])} after_ms={r.range(10, 120)}")
+    # checks of different files at the same time: a root-owned script and somebody else's (seed C18i: one shared stat buffer)
+    ops.append(f"ex.mix n={r.pick([6, 8, 12])} ms={r.pick([200, 300])}")
     # two overlapping calls on one executable; the file is replaced by a non-root owner's while both are under way
     for _ in range(max(2, n // 80)):
         ops.append(f"ex.queue slow_ms={r.pick([500, 600, 700])} gap_ms={r.range(20, 80)} swap_ms={r.range(100, 200)}")
